@@ -1,4 +1,297 @@
-(* C19 - property theorems (stage 1 placeholder) *)
-From PV Require Import C19.Model C19.Spec C19.Proofs.
-Theorem c19_stage1_placeholder : True. Proof. exact placeholder_true. Qed.
-Print Assumptions c19_stage1_placeholder.
+(* C19 - Estimators are unbiased where promised; relaxed distributions are consistent.
+   Property theorems only: each is closed by [exact <lemma>] and followed by [Print Assumptions].
+   Model: Model.v (estimators), Relaxed.v (relaxed distributions, one set of formulas with a fixed-point
+   and a real-number instance), Combinatorics.v.  Spec: Spec.v.  The harness re-checks this file on every run. *)
+From Coq Require Import List ZArith QArith Reals Lra Bool.
+From PV Require Import C19.Model C19.Relaxed C19.Combinatorics C19.Spec.
+From PV Require Import C19.Proofs C19.ProofsComb C19.RProofs.
+Import ListNotations.
+
+(* ========================================================================================== *)
+(* "the average over the whole sample space of the value returned by the direct, importance-sampling and
+    enumeration estimators - and of its gradient with respect to the distribution's parameters - equals the
+    exact expectation and its exact gradient, with or without a control variate and for any number of Monte
+    Carlo samples"                                                                                        *)
+(* ========================================================================================== *)
+
+(* DirectEstimator: any table pd of positive probabilities summing to one with derivatives summing to zero,
+   any f and control variate (with their own derivatives), any float value [ell] of the log-probabilities,
+   any N > 0; with a control variate its mean must be passed as the exact expectation (value and derivative) *)
+Theorem c19_direct_unbiased : forall pd f cv ell use_cv cvm N,
+  (0 < N)%nat -> is_dist pd ->
+  (use_cv = true -> deq cvm (exact pd cv)) ->
+  unbiased pd pd f N (direct_at use_cv cvm pd f cv ell).
+Proof. exact direct_unbiased. Qed.
+Print Assumptions c19_direct_unbiased.
+
+(* ImportanceSamplingEstimator (not self-normalised): samples from qd, any positive density pd (not
+   necessarily normalised); the proposal's derivative does not enter: its gradient is blocked *)
+Theorem c19_importance_unbiased : forall pd qd f N,
+  (0 < N)%nat -> length pd = length qd ->
+  (Qsum (map fst qd) == 1)%Q -> Forall (fun e => (0 < fst e)%Q) qd -> is_density pd ->
+  unbiased pd qd f N (importance_at false pd qd f).
+Proof. exact importance_unbiased. Qed.
+Print Assumptions c19_importance_unbiased.
+
+(* EnumerateEstimator returns the exact expectation and gradient *)
+Theorem c19_enumerate_exact : forall pd f,
+  length f = length pd -> is_density pd -> deq (enumerate_est pd f) (exact pd f).
+Proof. exact enumerate_exact. Qed.
+Print Assumptions c19_enumerate_exact.
+
+(* the lemma behind "for any number of Monte Carlo samples": the space average of the mean over the N
+   positions of any per-sample statistic h is its single-sample expectation *)
+Theorem c19_mean_of_iid_draws : forall qd, (Qsum (map fst qd) == 1)%Q ->
+  forall (h : nat -> Q) N, (0 < N)%nat ->
+  (Esp qd N (fun t => / Qn (length t) * Qsum (map h t)) ==
+   Qsum (map (fun i => pr qd i * h i) (seq 0 (length qd))))%Q.
+Proof. exact Esp_mean_positions. Qed.
+Print Assumptions c19_mean_of_iid_draws.
+
+(* independent variables: the joint table built by the model is a distribution whenever the factors are *)
+Theorem c19_joint_is_dist : forall vs, Forall is_dist vs -> is_dist (joint vs).
+Proof. exact joint_is_dist. Qed.
+Print Assumptions c19_joint_is_dist.
+
+(* ========================================================================================== *)
+(* "the relaxation-based estimators have the same exact mean in value"                         *)
+(* ========================================================================================== *)
+
+(* StraightThroughEstimator: the value is the sample mean of f at the thresholded samples, hence unbiased
+   whenever the thresholded sample follows pd (for LogisticBernoulli: c19_logistic_threshold_iff) *)
+Theorem c19_straight_through_value_unbiased : forall pd f N,
+  (0 < N)%nat -> (Qsum (map fst pd) == 1)%Q ->
+  (fst (space_average pd N (fun t => straight_through (map (fn f) t))) == fst (exact pd f))%Q.
+Proof. exact straight_through_value_unbiased. Qed.
+Print Assumptions c19_straight_through_value_unbiased.
+
+(* RelaxEstimator: the value is the sample mean of f(b) - cv(zcond) + cv(z); the score-function surrogate
+   (deriv - deriv.detach()) contributes nothing to the value *)
+Theorem c19_relax_value : forall ds, ds <> [] ->
+  (fst (relax ds) ==
+   / Qn (length ds) * Qsum (map (fun d => fst (r_f d) - fst (r_cvzc d) + fst (r_cvz d)) ds))%Q.
+Proof. exact relax_value. Qed.
+Print Assumptions c19_relax_value.
+
+(* ... and the two control-variate terms cancel in the mean as soon as the relaxed law factors as
+   threshold probability times conditional law (discrete form; the continuous factorisation is
+   c19_logistic_density_factorises / c19_gumbel_density_factorises below) *)
+Theorem c19_relax_mean_exact : forall (m n : nat) (r : nat -> Q) (Hth : nat -> nat) (kap : nat -> nat -> Q)
+  (f c : nat -> Q),
+  (forall z, (z < m)%nat -> (Hth z < n)%nat) ->
+  (forall b zc, (b < n)%nat -> (zc < m)%nat ->
+     (Pth m r Hth b * kap b zc == if Nat.eqb (Hth zc) b then r zc else 0)%Q) ->
+  (Qsum (map (fun z => Qsum (map (fun zc => r z * kap (Hth z) zc * (f (Hth z) - c zc + c z)) (seq 0 m))) (seq 0 m))
+   == Qsum (map (fun b => Pth m r Hth b * f b) (seq 0 n)))%Q.
+Proof. exact relax_mean_exact. Qed.
+Print Assumptions c19_relax_mean_exact.
+
+(* ========================================================================================== *)
+(* "the Metropolis-Hastings estimator, whether it draws its starting point or is handed one, accepts every
+    proposal and returns the plain post-burn-in average when proposal and target coincide"     *)
+(* ========================================================================================== *)
+Theorem c19_mh_accepts_all_when_equal : forall w c f init props us burn,
+  (0 < c)%Q -> (forall i, (w i == c)%Q) ->
+  Forall (fun u => (0 <= u)%Q /\ (u < 1)%Q) us -> (length props <= length us)%nat ->
+  imh_chain w init (Some (w init)) props us = props /\
+  imh_element w f init props us burn = (Qsum (map f (skipn burn props)) / Qn (length props - burn))%Q.
+Proof. exact mh_accepts_all_when_equal. Qed.
+Print Assumptions c19_mh_accepts_all_when_equal.
+
+(* drawing the starting point: the first draw is used as soon as it lies in the target's support (always,
+   when proposal and target coincide); being handed one skips this step, the chain above is the same *)
+Theorem c19_mh_initial_draw : forall insupp d0 rest tries,
+  all_in insupp d0 = true -> find_initial insupp (d0 :: rest) tries = Some (d0, 1%nat).
+Proof. exact find_initial_first. Qed.
+Print Assumptions c19_mh_initial_draw.
+
+(* ========================================================================================== *)
+(* "For the relaxed Bernoulli and categorical distributions, thresholding a conditional relaxed sample always
+    returns the conditioning value, and the relaxed density factors as threshold probability times
+    conditional density"   (real-number instance of the formulas of Relaxed.v)                 *)
+(* ========================================================================================== *)
+Theorem c19_logistic_threshold_of_csample : forall p v b eps,
+  (0 < p < 1)%R -> (0 < v < 1)%R -> (0 <= eps)%R ->
+  lb_threshold Rarith (lb_csample Rarith p v b eps) = b.
+Proof. exact logistic_threshold_of_csample. Qed.
+Print Assumptions c19_logistic_threshold_of_csample.
+
+Theorem c19_gumbel_threshold_of_csample : forall ps vs k eps,
+  length ps = length vs -> (k < length vs)%nat ->
+  Forall (fun p => (0 < p)%R) ps -> Forall (fun v => (0 < v < 1)%R) vs -> (0 <= eps)%R ->
+  g_threshold Rarith (g_csample Rarith ps vs (one_hot k (length vs)) eps) = one_hot k (length vs).
+Proof. exact gumbel_threshold_of_csample. Qed.
+Print Assumptions c19_gumbel_threshold_of_csample.
+
+Theorem c19_logistic_density_factorises : forall l z,
+  exists c, lb_clog_prob Rarith l z (lb_threshold Rarith z) = Some c /\
+            lb_log_prob Rarith l z = (lb_tlog_prob Rarith l (lb_threshold Rarith z) + c)%R.
+Proof. exact logistic_density_factorises. Qed.
+Print Assumptions c19_logistic_density_factorises.
+
+(* off the thresholded value the conditional density is 0 (log-density -inf) *)
+Theorem c19_logistic_clog_prob_off_value : forall l z b,
+  b <> lb_threshold Rarith z -> lb_clog_prob Rarith l z b = None.
+Proof. exact logistic_clog_prob_off_value. Qed.
+Print Assumptions c19_logistic_clog_prob_off_value.
+
+(* categorical: needs the normalisation sum_j exp(logits_j) = 1 that the constructor establishes *)
+Theorem c19_gumbel_density_factorises : forall ls zs,
+  length zs = length ls -> zs <> [] -> Rsum (map exp ls) = 1%R ->
+  exists c, g_clog_prob Rarith ls zs (g_threshold Rarith zs) = Some c /\
+            g_log_prob Rarith ls zs = (g_tlog_prob Rarith ls (g_threshold Rarith zs) + c)%R.
+Proof. exact gumbel_density_factorises. Qed.
+Print Assumptions c19_gumbel_density_factorises.
+
+(* the threshold law of the relaxed Bernoulli sample: 1 exactly on u in [1-p, 1), an event of measure p *)
+Theorem c19_logistic_threshold_iff : forall p u, (0 < p < 1)%R -> (0 < u < 1)%R ->
+  (lb_threshold Rarith (lb_rsample Rarith (ln (p / (1 - p))) u) = true <-> (1 - p <= u)%R).
+Proof. exact logistic_threshold_iff. Qed.
+Print Assumptions c19_logistic_threshold_iff.
+
+(* the conditional sample is the relaxed sample at an affine image of the uniform: the conditional law is
+   the relaxed law restricted to the threshold region *)
+Theorem c19_logistic_csample_is_rsample : forall p v,
+  (0 < p < 1)%R -> (0 < v < 1)%R ->
+  lb_csample Rarith p v true 0%R = lb_rsample Rarith (ln (p / (1 - p))) (1 - p + p * v)%R /\
+  lb_csample Rarith p v false 0%R = lb_rsample Rarith (ln (p / (1 - p))) ((1 - p) * (1 - v))%R.
+Proof. exact logistic_csample_is_rsample. Qed.
+Print Assumptions c19_logistic_csample_is_rsample.
+
+(* ========================================================================================== *)
+(* "Every distribution's samples lie in its support, and its probabilities over its enumerated support sum
+    to one (in particular fixed-cardinality sampling always returns the requested number of ones inside the
+    permitted positions)"                                                                      *)
+(* ========================================================================================== *)
+(* for every script of Bernoulli uniforms in [0,1) *)
+Theorem c19_srswor_cardinality_and_positions : forall total given out us bits,
+  (0 <= given)%Z -> Forall unit_u us ->
+  srswor total given out us = Some bits -> srswor_ok total given out bits.
+Proof. exact srswor_cardinality_and_positions. Qed.
+Print Assumptions c19_srswor_cardinality_and_positions.
+
+Theorem c19_srswor_error_iff : forall total given out us,
+  srswor total given out us = None <-> (total < given \/ Z.of_nat out < total)%Z.
+Proof. exact srswor_error_iff. Qed.
+Print Assumptions c19_srswor_error_iff.
+
+(* the constraint object of the distribution (support.check) accepts exactly those vectors *)
+Theorem c19_card_check_iff : forall total given value, (0 <= total)%Z ->
+  card_check given (Some total) value = true <-> srswor_ok total given (length value) value.
+Proof. exact card_check_iff. Qed.
+Print Assumptions c19_card_check_iff.
+
+(* every legal vector is emitted with probability 1 / C(total, given) *)
+Theorem c19_srswor_uniform : forall bits tau ell,
+  (0 <= ell <= tau)%Z -> (tau <= Z.of_nat (length bits))%Z -> srswor_ok tau ell (length bits) bits ->
+  (srswor_prob ell (Z.max tau 1) bits * inject_Z (choose (Z.to_nat tau) (Z.to_nat ell)) == 1)%Q.
+Proof. exact srswor_uniform. Qed.
+Print Assumptions c19_srswor_uniform.
+
+(* binomial_coefficient: both branches compute Pascal's triangle (each for every length, not only on its
+   side of the length_ > 20 switch), and the batch function raises exactly on negative input *)
+Theorem c19_binomial_is_pascal : forall lens cnts,
+  Forall (fun v => (0 <= v)%Z) lens -> Forall (fun v => (0 <= v)%Z) cnts ->
+  binomial_coefficient lens cnts =
+  Some (map (fun lc => choose (Z.to_nat (fst lc)) (Z.to_nat (snd lc))) (combine lens cnts)).
+Proof. exact binomial_is_pascal. Qed.
+Print Assumptions c19_binomial_is_pascal.
+
+Theorem c19_binom_fact_branch_is_pascal : forall length_ len cnt,
+  (0 <= len <= length_)%Z -> (0 <= cnt)%Z ->
+  binom_fact_branch length_ len cnt = choose (Z.to_nat len) (Z.to_nat cnt).
+Proof. exact binom_fact_branch_is_pascal. Qed.
+Print Assumptions c19_binom_fact_branch_is_pascal.
+
+Theorem c19_binom_table_branch_is_pascal : forall length_ count_ len cnt,
+  (0 <= len <= length_)%Z -> (0 <= cnt <= count_)%Z ->
+  binom_table_branch length_ count_ len cnt = choose (Z.to_nat len) (Z.to_nat cnt).
+Proof. exact binom_table_branch_is_pascal. Qed.
+Print Assumptions c19_binom_table_branch_is_pascal.
+
+Theorem c19_binomial_error_iff : forall lens cnts,
+  binomial_coefficient lens cnts = None <->
+  (Exists (fun v => (v < 0)%Z) lens \/ Exists (fun v => (v < 0)%Z) cnts).
+Proof. exact binomial_error_iff. Qed.
+Print Assumptions c19_binomial_error_iff.
+
+(* Pascal's triangle is n! / (k! (n-k)!) *)
+Theorem c19_binomial_pascal_eq_factorial : forall k n, (k <= n)%nat ->
+  (choose n k * zfact k * zfact (n - k) = zfact n)%Z.
+Proof. exact choose_fact. Qed.
+Print Assumptions c19_binomial_pascal_eq_factorial.
+
+(* enumerate_vocab_sequences: every sequence over the vocabulary exactly once *)
+Theorem c19_enumerate_vocab_complete : forall len V, (0 <= len)%Z -> (0 < V)%Z ->
+  exists rows, enumerate_vocab_sequences len V = Some rows /\
+    NoDup rows /\ (forall r, In r rows <-> in_vocab V (Z.to_nat len) r) /\
+    Z.of_nat (length rows) = (V ^ len)%Z.
+Proof. exact enumerate_vocab_complete. Qed.
+Print Assumptions c19_enumerate_vocab_complete.
+
+Theorem c19_enumerate_vocab_error_iff : forall len V,
+  enumerate_vocab_sequences len V = None <-> (len < 0 \/ V <= 0)%Z.
+Proof. exact enumerate_vocab_error_iff. Qed.
+Print Assumptions c19_enumerate_vocab_error_iff.
+
+(* enumerate_binary_sequences_with_cardinality: every bit vector with the requested sum exactly once, and
+   there are C(length, count) of them *)
+Theorem c19_enumerate_card_complete : forall len cnt, (0 <= len)%Z -> (0 <= cnt)%Z ->
+  exists rows, enumerate_card_int len cnt = Some rows /\
+    NoDup rows /\ (forall r, In r rows <-> in_card len cnt r) /\
+    Z.of_nat (length rows) = choose (Z.to_nat len) (Z.to_nat cnt).
+Proof. exact enumerate_card_complete. Qed.
+Print Assumptions c19_enumerate_card_complete.
+
+(* SimpleRandomSamplingWithoutReplacement: |enumerate_support| * exp(log_prob) = 1, and every enumerated row
+   is a legal sample *)
+Theorem c19_support_sums_to_one : forall total given out, (0 <= given <= total)%Z ->
+  exists rows, srswor_support total given out = Some rows /\
+    (Qn (length rows) * srswor_prob_value total given == 1)%Q.
+Proof. exact support_sums_to_one. Qed.
+Print Assumptions c19_support_sums_to_one.
+
+Theorem c19_support_rows_ok : forall total given out rows r,
+  (0 <= given)%Z -> (0 <= total <= Z.of_nat out)%Z ->
+  srswor_support total given out = Some rows -> In r rows -> srswor_ok total given out r.
+Proof. exact support_rows_ok. Qed.
+Print Assumptions c19_support_rows_ok.
+
+(* ========================================================================================== *)
+(* non-vacuity: concrete non-trivial inputs meet the hypotheses                                 *)
+(* ========================================================================================== *)
+Example c19_estimators_nonvacuous :
+  let pd := mkjoint [[(1#4); (3#4)]; [(1#2); (1#2)]] [[(-1#1); (1#1)]; [0; 0]]%Q in
+  let cv := [(1, 0); (2, 1#2); (0, 0); (3, -1#1)]%Q in
+  is_dist pd /\ length pd = 4%nat /\ deq (exact pd cv) (exact pd cv) /\
+  (fst (exact pd cv) == 3#2)%Q /\
+  (fst (direct_at true (exact pd cv) pd [(1,0);(0,1);(2,0);(5,0)]%Q cv [0;0;0;0]%Q [1;3]%nat) == 3#2)%Q.
+Proof.
+  cbv zeta. split; [|split; [reflexivity|split; [split; reflexivity|split; vm_compute; reflexivity]]].
+  apply joint_is_dist. repeat constructor; vm_compute; reflexivity.
+Qed.
+
+Example c19_mh_nonvacuous :
+  imh_chain (fun _ => 1#1)%Q 0 (Some (1#1)%Q) [2;0;1]%nat [(0#1); (1#2); (63#64)]%Q = [2;0;1]%nat /\
+  Forall (fun u => (0 <= u)%Q /\ (u < 1)%Q) [(0#1); (1#2); (63#64)]%Q.
+Proof. split; [reflexivity|]. repeat constructor; vm_compute; congruence. Qed.
+
+Example c19_combinatorics_nonvacuous :
+  srswor 4 2 5 [(1#2); (1#2); (1#2); (1#2); (1#2)]%Q = Some [0; 1; 0; 1; 0]%Z /\
+  Forall unit_u [(1#2); (1#2); (1#2); (1#2); (1#2)]%Q /\
+  srswor_okb 4 2 5 [0; 1; 0; 1; 0]%Z = true /\
+  (srswor_prob 2 4 [0; 1; 0; 1; 0]%Z == 1 # 6)%Q /\ choose 4 2 = 6%Z /\
+  binomial_coefficient [25; 5]%Z [2; 3]%Z = Some [300; 10]%Z /\
+  enumerate_card_int 3 1 = Some [[1;0;0]; [0;1;0]; [0;0;1]]%Z.
+Proof.
+  repeat split; try (vm_compute; reflexivity).
+  repeat constructor; vm_compute; congruence.
+Qed.
+
+Example c19_relaxed_nonvacuous :
+  (Rsum (map exp [ln (1/4); ln (3/4)]) = 1)%R /\ [0; 1]%R <> [] /\
+  Forall (fun v => (0 < v < 1)%R) [(1/2); (1/3)]%R.
+Proof.
+  split; [|split; [discriminate|repeat constructor; lra]].
+  unfold Rsum; cbn [map fold_right]. rewrite !exp_ln by lra. lra.
+Qed.
